@@ -128,6 +128,7 @@ package harfbuzz
 //@ func Buffer.setGlyphFlags C18
 //@   mode bv
 //@   requires [range] 0 <= start && start <= end && start <= len(b.Info)
+//@   requires [out-range] implies(fromOutBuffer && b.haveOutput, 0 <= b.idx && b.idx <= min(end, len(b.Info)) && start <= len(b.outInfo))
 //@   ensures [short-range-untouched] implies(interior && !fromOutBuffer && min(end0, len(b.Info))-start < 2, forall(k, 0, len(b.Info), b.Info[k].Mask == old(b.Info[k].Mask)))
 //@   ensures [interior-flags-non-minimal] implies(interior && !fromOutBuffer && old(b.ClusterLevel == Characters || monotoneRange(b.Info, start, min(end0, len(b.Info)))),
 //@     | forall(k, start, old(min(end0, len(b.Info))), implies(exists(l, start, old(min(end0, len(b.Info))), mark(l) && old(b.Info[l].Cluster < b.Info[k].Cluster)), b.Info[k].Mask == old(b.Info[k].Mask)|mask)))
@@ -137,7 +138,10 @@ package harfbuzz
 //@   modifies b.scratchFlags; all(GlyphInfo)
 //@   loop 1 invariant [i-range] start <= i && i <= end && end <= len(info) && sameslice(info, b.Info) && sameslice(b.Info, old(b.Info))
 //@   loop 1 invariant [done] forall(k, 0, len(info), info[k].Mask == ite(start <= k && k < i, old(b.Info[k].Mask)|mask, old(b.Info[k].Mask)) && info[k].Cluster == old(b.Info[k].Cluster))
+//@   loop 2 invariant [i-range] 0 <= start && start <= i && sameslice(outInfo, b.outInfo)
+//@   loop 3 invariant [i-range] 0 <= b.idx && b.idx <= i && i <= end && end <= len(info)
 //@   assert_at call findMinCluster#1 : [same-range] end == min(end0, len(b.Info)) && sameslice(info, b.Info)
+//@   assert_at call infosSetGlyphFlags#2 : [reference-is-minimum-of-both-parts] implies(b.ClusterLevel == Characters || (monotoneRange(info, b.idx, end) && monotoneRange(outInfo, start, len(outInfo))), forall(k, b.idx, end, arg4 <= info[k].Cluster) && forall(k, start, len(outInfo), arg4 <= outInfo[k].Cluster))
 //@   assert_at call findMinCluster#1 : [monotone-transfer] implies(monotoneRange(b.Info, start, min(end0, len(b.Info))), monotoneRange(info, start, end))
 //
 // unsafeToBreak = setGlyphFlags(UnsafeToBreak|UnsafeToConcat, start, end, interior, in place).
@@ -248,4 +252,44 @@ package harfbuzz
 //@   mode bv
 //@   requires [context] c != nil && c.buffer != nil
 //@   assert_at call applyLookup#1 : [matched-range-flagged] c.buffer.scratchFlags&bsfHasGlyphFlags != 0
+//@   modifies unspecified
+//
+// Property C01, mechanism "budgets ... checked between lookups and in recursion": recurse refuses to go deeper when the
+// nesting budget is used up (without consuming an operation), and when the operation budget is used up.
+//@ func otApplyContext.recurse C01
+//@   mode int
+//@   requires [context] c != nil && c.buffer != nil
+//@   ensures [nesting-budget-enforced] implies(old(c.nestingLevelLeft) == 0 || old(c.recurseFunc) == nil, !result && c.buffer.maxOps == old(c.buffer.maxOps) && c.nestingLevelLeft == old(c.nestingLevelLeft))
+//@   ensures [operation-budget-enforced] implies(old(c.nestingLevelLeft) != 0 && old(c.recurseFunc) != nil && old(c.buffer.maxOps) <= 0, !result && c.nestingLevelLeft == old(c.nestingLevelLeft))
+//@   modifies unspecified
+//
+// mergeOutClusters: the same contract as mergeClusters, on the out-buffer: below the Characters level every glyph of
+// [start, end) ends with the minimum cluster value of the range, whatever the order of the clusters (they are
+// descending for text shaped against its native direction), and cluster values only decrease.
+//@ func Buffer.mergeOutClusters C01
+//@   mode int
+//@   requires [range] 0 <= start && start <= end && end <= len(b.outInfo) && 0 <= b.idx
+//@   requires [distinct-buffers] rid(b.Info) != rid(b.outInfo) || len(b.Info) == 0
+//@   ensures [range-gets-its-minimum] implies(old(b.ClusterLevel) != Characters && end0-start0 >= 2, forall(i, start0, end0, forall(k, start0, end0, b.outInfo[i].Cluster <= old(b.outInfo[k].Cluster))))
+//@   ensures [clusters-only-decrease] forall(i, 0, len(b.outInfo), b.outInfo[i].Cluster <= old(b.outInfo[i].Cluster)) && forall(i, 0, len(b.Info), b.Info[i].Cluster <= old(b.Info[i].Cluster))
+//@   ensures [shape-kept] sameslice(b.Info, old(b.Info)) && sameslice(b.outInfo, old(b.outInfo)) && b.idx == old(b.idx)
+//@   modifies b.Info[:].Cluster; b.Info[:].Mask; b.outInfo[:].Cluster; b.outInfo[:].Mask
+//@   loop 1 invariant [i-range] start+1 <= i && i <= end && start == start0 && end == end0
+//@   loop 1 invariant [min-so-far] forall(k, start, i, cluster <= b.outInfo[k].Cluster)
+//@   loop 2 invariant [start-range] 0 <= start && start <= start0 && end == end0
+//@   loop 2 invariant [extension] forall(k, start, start0+1, b.outInfo[k].Cluster == b.outInfo[start0].Cluster)
+//@   loop 3 invariant [end-range] end0 <= end && end <= len(b.outInfo) && 0 <= start && start <= start0
+//@   loop 3 invariant [extension] forall(k, end0-1, end, b.outInfo[k].Cluster == b.outInfo[end0-1].Cluster)
+//@   loop 4 invariant [in] b.idx <= i && sameslice(b.Info, old(b.Info)) && sameslice(b.outInfo, old(b.outInfo)) && b.idx == old(b.idx) && forall(k, 0, len(b.Info), b.Info[k].Cluster <= old(b.Info[k].Cluster)) && endC >= cluster
+//@   loop 4 invariant [out-untouched] forall(k, 0, len(b.outInfo), b.outInfo[k].Cluster == old(b.outInfo[k].Cluster)) && 0 <= start && start <= start0 && end0 <= end && end <= len(b.outInfo) && forall(k, start, end, cluster <= old(b.outInfo[k].Cluster))
+//@   loop 5 invariant [i-range] start <= i && i <= end && 0 <= start && start <= start0 && end0 <= end && end <= len(b.outInfo) && sameslice(b.Info, old(b.Info)) && sameslice(b.outInfo, old(b.outInfo)) && b.idx == old(b.idx)
+//@   loop 5 invariant [assigned] forall(k, start, i, b.outInfo[k].Cluster == cluster) && forall(k, 0, len(b.outInfo), implies(k < start || k >= i, b.outInfo[k].Cluster == old(b.outInfo[k].Cluster)))
+//@   loop 5 invariant [min] forall(k, start, end, cluster <= old(b.outInfo[k].Cluster))
+//@   loop 5 invariant [in-kept] forall(k, 0, len(b.Info), b.Info[k].Cluster <= old(b.Info[k].Cluster))
+//
+// Property C18, class-based pair positioning: when either value record moved a glyph, the range flagged unsafe to break
+// runs from the first glyph of the pair to the second one included, however many skipped glyphs lie in between.
+//@ func otApplyContext.applyGPOSPair2 C18
+//@   mode int
+//@   assert_at call unsafeToBreak#1 : [pair-flagged] arg1 == buffer.idx && arg2 == skippyIter.idx+1
 //@   modifies unspecified
